@@ -20,6 +20,9 @@ class Color(enum.Enum):
     RED = 1
     GREEN = 2
     BLUE = 5
+    low = 7          # member names are not always upper case
+    Mixed = 9
+    MIXED = 10       # ... and may differ in case only: the exact name wins
 
 
 def make_class():
@@ -135,6 +138,8 @@ def wellformed_text(rng, t):
         m = rng.choice(list(Color))
         if rng.random() < 0.5:
             return pad(str(m.value))
+        if rng.random() < 0.5:
+            return m.name       # the natural text form of a member: its name
         return ''.join(c.lower() if rng.random() < 0.5 else c for c in m.name)
     items = [rng.choice(['a', 'b', 'xy', 'k1', '7', 'A b']) for _ in range(rng.randint(1, 4))]
     if t in ('TList', 'TTuple'):
@@ -380,7 +385,10 @@ def ref_parse(t, s):
         try:
             return Color(int(s))
         except ValueError:
-            return Color[s.upper()]
+            try:
+                return Color[s]            # a member given by its name ...
+            except KeyError:
+                return Color[s.upper()]    # ... or, for upper-case members, in any letter case
     if t == 'TList':
         return [x.strip() for x in s.split(',')]
     if t == 'TTuple':
